@@ -47,6 +47,7 @@ class Engine:
         self.modular_hook = None  # set by verify: apply contract at call
         self.ctor_hook = None
         self.pure_exc = []
+        self.executed = {}  # qualname -> sha of every function body executed (target and inlined callees)
 
     # ----------------------------------------------------------------------------------
     # feasibility and branching
@@ -1032,6 +1033,7 @@ class Engine:
                 return
         if depth >= MAX_INLINE_DEPTH:
             raise Unsupported("inline depth exceeded at " + fi.qual)
+        self.executed[fi.qual] = fi.sha  # body executed (inlined): the VCs depend on this source text
         stack = state.env.get("__stack__", ())
         if fi.qual in stack:
             raise Unsupported("recursive call to %s without a contract" % fi.qual)
@@ -1059,6 +1061,7 @@ class Engine:
 
     # entry point used by the verifier ----------------------------------------------------
     def run(self, fi, args, state):
+        self.executed[fi.qual] = fi.sha
         env = self.bind_args(fi, args, {}, state)
         env.update({"__module__": fi.module, "__depth__": 0, "__stack__": (fi.qual,), "__func__": fi.qual})
         if fi.cls:
